@@ -14,6 +14,10 @@ type Options struct {
 	Maint       int `json:"maint"`        // data.maintenance-interval (nflog + silences GC/snapshot)
 	StartDelay  int `json:"start_delay"`  // dispatch.start-delay
 	PeerTimeout int `json:"peer_timeout"` // cluster.peer-timeout
+	// GroupLimit: run the dispatcher with an aggregation-group limit that can never legitimately bind: the number of
+	// distinct (route, group labels) pairs the scenario's configurations and label sets can produce, plus two
+	// (the counter may transiently run ahead of the map by the groups a maintenance sweep is just removing)
+	GroupLimit bool `json:"group_limit,omitempty"`
 }
 
 type PostAlert struct {
@@ -139,23 +143,23 @@ type Sample struct {
 }
 
 type Trace struct {
-	Start      time.Time      `json:"start"`
-	StepAt     []time.Time    `json:"step_at"`
+	Start  time.Time   `json:"start"`
+	StepAt []time.Time `json:"step_at"`
 	// RestartSilSnap: per restart step in order, the instant of the silence snapshot the new process started
 	// from (the stop instant for a clean restart, the last maintenance run for a stale one, zero for none)
-	RestartSilSnap []time.Time `json:"restart_sil_snap,omitempty"`
-	End        time.Time      `json:"end"`
-	Attempts   []Attempt      `json:"attempts"`
-	Samples    []Sample       `json:"samples"`
-	Starts     []time.Time    `json:"starts"`      // instants at which the instance (re)started its process-lifetime components
-	DispStarts []time.Time    `json:"disp_starts"` // instants at which a dispatcher was (re)created (reload or restart)
-	Errors     []string       `json:"errors,omitempty"`
-	FlushStorm []string       `json:"flush_storm,omitempty"`
-	Flushes    []FlushEnter   `json:"flushes,omitempty"`
-	HookLog    []string       `json:"hook_log,omitempty"`
-	Net        map[string]int `json:"net,omitempty"`        // cluster mode: message counters of the harness network
-	Arrivals   []Arrival      `json:"arrivals,omitempty"`   // cluster mode: gossip deliveries of notification-log entries
-	LogWrites  []LogWrite     `json:"log_writes,omitempty"` // cluster mode: notification-log entries written locally by each instance
+	RestartSilSnap []time.Time    `json:"restart_sil_snap,omitempty"`
+	End            time.Time      `json:"end"`
+	Attempts       []Attempt      `json:"attempts"`
+	Samples        []Sample       `json:"samples"`
+	Starts         []time.Time    `json:"starts"`      // instants at which the instance (re)started its process-lifetime components
+	DispStarts     []time.Time    `json:"disp_starts"` // instants at which a dispatcher was (re)created (reload or restart)
+	Errors         []string       `json:"errors,omitempty"`
+	FlushStorm     []string       `json:"flush_storm,omitempty"`
+	Flushes        []FlushEnter   `json:"flushes,omitempty"`
+	HookLog        []string       `json:"hook_log,omitempty"`
+	Net            map[string]int `json:"net,omitempty"`        // cluster mode: message counters of the harness network
+	Arrivals       []Arrival      `json:"arrivals,omitempty"`   // cluster mode: gossip deliveries of notification-log entries
+	LogWrites      []LogWrite     `json:"log_writes,omitempty"` // cluster mode: notification-log entries written locally by each instance
 }
 
 // FlushEnter is recorded by the flush.enter hook point.
